@@ -42,6 +42,7 @@ type Profile struct {
 	InitMin        int              // the initial stack has at least this many transactions
 	WidePopularP   float64          // probability (runs with 1024- or 256-byte blocks only) that the history ends with a transaction whose table has hundreds of ref blocks holding one object id
 	BigMultiP      float64          // probability that a multi-table Addition is a bulk import of 8-32 tables (the Addition API never compacts)
+	IdxJumpP       float64          // probability that a transaction's limits lie far above the next update index (up to 2^55: names grow past 12 hex digits at 2^48)
 	ShortRangesP   float64          // probability that a range compaction covers just 2-3 tables at a random position of a deep stack
 }
 
@@ -126,9 +127,13 @@ func (g *genCtx) txn() TxnSpec {
 	if g.p.BadTxn > 0 && r.Bool(g.p.BadTxn) {
 		tx.Bad = []string{"stale-index", "big", "closure-error"}[r.Intn(3)]
 	}
+	if g.p.IdxJumpP > 0 && r.Bool(g.p.IdxJumpP) {
+		// the writer accepts any limits at or above the next update index
+		tx.Jump = []uint64{1, 1000, 1 << 20, 1 << 32, 1<<48 - 3, 1 << 48, 1 << 55}[r.Intn(7)]
+	}
 	nr := pickN(r, g.p.RefsPerTxn[0], g.p.RefsPerTxn[1])
 	if g.uniform > 0 {
-		tx.Span, tx.Bad = 0, ""
+		tx.Span, tx.Bad, tx.Jump = 0, "", 0
 		for i := 0; i < g.uniform; i++ {
 			tx.Refs = append(tx.Refs, RefSpec{Name: g.names[r.Intn(len(g.names))], Kind: RefVal})
 		}
@@ -546,7 +551,17 @@ func AddTimeFaults(spec *RunSpec, seed uint64, estSteps int) {
 	for i := 0; i < n; i++ {
 		t := 1 + r.Intn(len(spec.Tasks))
 		if r.Bool(0.5) {
-			spec.Faults = append(spec.Faults, simrt.Fault{Kind: simrt.FaultClockJump, Task: t, Step: 2 + r.Intn(estSteps), Arg: int64(1+r.Intn(10)) * 1e9})
+			// seconds (NTP step, a stalled process), minutes or hours (a
+			// suspended virtual machine, a laptop lid): whatever the
+			// library derives from elapsed time or file ages must survive
+			jump := int64(1+r.Intn(10)) * 1e9
+			switch r.Intn(10) {
+			case 0, 1:
+				jump *= 60
+			case 2:
+				jump *= 3600
+			}
+			spec.Faults = append(spec.Faults, simrt.Fault{Kind: simrt.FaultClockJump, Task: t, Step: 2 + r.Intn(estSteps), Arg: jump})
 		} else {
 			spec.Faults = append(spec.Faults, simrt.Fault{Kind: simrt.FaultSlow, Task: t, Step: 2 + r.Intn(estSteps), Arg: 30000, Arg2: int64(1 + r.Intn(8))})
 		}
